@@ -1181,8 +1181,8 @@ func pathFacts(target *ssa.BasicBlock) (facts []PathFact, ok bool) {
 			}
 			set := map[string]fact{}
 			for _, f := range cur {
-				k := condKey(f.cond, 0)
-				if f.want {
+				k, inv := eqKey(f.cond)
+				if f.want != inv {
 					k = "+" + k
 				} else {
 					k = "-" + k
@@ -1213,10 +1213,10 @@ func pathFacts(target *ssa.BasicBlock) (facts []PathFact, ok bool) {
 			if isIf && b.Succs[0] != b.Succs[1] {
 				cnd, flip := stripNot(ifi.Cond)
 				want := (k == 0) != flip
-				key := condKey(cnd, 0)
+				key, inv := eqKey(cnd)
 				pos, neg := "+"+key, "-"+key
 				mine, other := pos, neg
-				if !want {
+				if want == inv { // the edge on which the ==-form of the test is false
 					mine, other = neg, pos
 				}
 				if curKeys[other] {
@@ -1398,4 +1398,83 @@ func canFollowSameRound(a, b ssa.Instruction) bool {
 		push(x)
 	}
 	return false
+}
+
+// eqKey is condKey with `x != y` keyed as the negation of `x == y` (operands in a fixed order), so that the
+// two spellings of one test contradict / confirm each other on a path.
+func eqKey(cnd ssa.Value) (key string, inverted bool) {
+	if b, ok := cnd.(*ssa.BinOp); ok {
+		x, y := condKey(b.X, 1), condKey(b.Y, 1)
+		switch b.Op {
+		case token.EQL, token.NEQ:
+			if y < x {
+				x, y = y, x
+			}
+			return "(== " + x + " " + y + ")", b.Op == token.NEQ
+		// the four orderings as one: a<b, a>=b ≡ !(a<b), a>b ≡ b<a, a<=b ≡ !(b<a)
+		case token.LSS:
+			return "(< " + x + " " + y + ")", false
+		case token.GEQ:
+			return "(< " + x + " " + y + ")", true
+		case token.GTR:
+			return "(< " + y + " " + x + ")", false
+		case token.LEQ:
+			return "(< " + y + " " + x + ")", true
+		}
+	}
+	return condKey(cnd, 0), false
+}
+
+// ---------- range-over-func loops over the standard iterators ----------
+
+// rangeFunc describes `for … := range slices.Backward(x) { body }` and its relatives: go/ssa compiles the
+// body into a closure (the yield function) that the iterator calls once per element.
+type rangeFunc struct {
+	Seq  *ssa.Call     // the call that makes the iterator (slices.Backward, slices.All, slices.Values, maps.Keys…)
+	Over ssa.Value     // what is iterated
+	Iter *ssa.Call     // the call of the iterator with the body
+	Body *ssa.Function // the loop body
+	Dir  int           // +1 ascending, -1 descending, 0 unordered (maps)
+}
+
+func rangeFuncs(fn *ssa.Function) []rangeFunc {
+	var out []rangeFunc
+	for _, site := range callsIn(fn) {
+		it, ok := site.(*ssa.Call)
+		if !ok || it.Call.IsInvoke() || it.Call.StaticCallee() != nil || len(it.Call.Args) != 1 {
+			continue
+		}
+		seq, ok := it.Call.Value.(*ssa.Call)
+		if !ok || len(seq.Call.Args) == 0 {
+			continue
+		}
+		mc, ok := it.Call.Args[0].(*ssa.MakeClosure)
+		if !ok {
+			continue
+		}
+		body, _ := mc.Fn.(*ssa.Function)
+		if body == nil {
+			continue
+		}
+		name := calleeName(&seq.Call)
+		if i := strings.Index(name, "["); i >= 0 {
+			name = name[:i]
+		}
+		dir, known := 0, true
+		switch name {
+		case "slices.Backward":
+			dir = -1
+		case "slices.All", "slices.Values":
+			dir = +1
+		case "maps.Keys", "maps.Values", "maps.All":
+			dir = 0
+		default:
+			known = false
+		}
+		if !known {
+			continue
+		}
+		out = append(out, rangeFunc{Seq: seq, Over: seq.Call.Args[0], Iter: it, Body: body, Dir: dir})
+	}
+	return out
 }
